@@ -68,6 +68,18 @@ def job_estimate(j):
     lib = get_lib(j['lib'])
     if j.get('fresh'):
         lib = GroupLibrary.Load(j['lib'])
+    if j.get('handbuilt'):
+        # a library put together by hand: an empty GroupLibrary carrying the scheme, the data merged into it - after ANOTHER
+        # hand-built library in this process received uncertainty data the same way
+        from pgradd.GroupAdd.Scheme import GroupAdditivityScheme
+        other = GroupLibrary(GroupAdditivityScheme.Load('BensonGA'))
+        try:
+            other.Update(GroupLibrary.Load(j['handbuilt']))
+        except Exception:
+            pass
+        src = GroupLibrary.Load(j['lib'])
+        lib = GroupLibrary(src.scheme)
+        lib.Update(src)
     if j.get('update_from'):
         # this library object has ALREADY estimated the very same mapping, and was then merged into from another library
         # (same data, wider ranges): the estimate made now reflects the library as it is now
@@ -117,6 +129,20 @@ def job_estimate(j):
         mapping = pristine
     res['range'] = rng_of(est)
     res['vals'] = eval_props(est, j['Ts'], j['props'])
+    # the same temperatures handed in as ONE integer-typed array (where they are whole numbers)
+    intTs = [int(T) for T in j['Ts'] if float(T) == int(T)]
+    if intTs:
+        import numpy as _np
+        arr = {}
+        for p_ in j['props']:
+            try:
+                with warnings.catch_warnings(record=True):
+                    warnings.simplefilter('always')
+                    v_ = getattr(est, GETTERS[p_])(_np.array(intTs))
+                arr[p_] = [float(x) for x in _np.asarray(v_, dtype=float).ravel()]
+            except Exception as e_:
+                arr[p_] = {'exc': exc_name(e_)}
+        res['int_array'] = {'T': intTs, 'vals': arr}
     if j.get('then_decomp'):
         try:
             lib.GetDescriptors(j['then_decomp'])
